@@ -627,7 +627,17 @@ func (hs *clientHandshakeStateTLS13) establishHandshakeKeys() error {
 		}
 		ecdhePeerData = hs.serverHello.serverShare.data[:x25519PublicKeySize]
 	}
-	sharedKey, err := getSharedKey(ecdhePeerData, hs.keyShareKeys.ecdhe)
+	ecdheKey := hs.keyShareKeys.ecdhe
+	if group := hs.serverHello.serverShare.group; (group == X25519MLKEM768 || group == X25519Kyber768Draft00) &&
+		hs.uconn != nil && hs.uconn.clientHelloBuildStatus == BuildByUtls {
+		// The hybrid share comes with its own X25519 key: the first classical
+		// share of the spec may be for another curve, or absent.
+		ecdheKey = hs.keyShareKeys.mlkemEcdhe
+	}
+	if ecdheKey == nil {
+		return c.sendAlert(alertInternalError)
+	}
+	sharedKey, err := getSharedKey(ecdhePeerData, ecdheKey)
 	// [uTLS] SECTION END
 	if err != nil {
 		c.sendAlert(alertIllegalParameter)
